@@ -1064,7 +1064,36 @@ func resliceRemoval(a *Anchors, r *core.Report, rule string) {
 			case dropFirst:
 				r.Bad(rule, key, fn, a.P.Pos(in.Pos()), inst, "the FIRST element is cut off but it was not saved into the removed element's slot before (no F[i] = F[0]; a shifted tail needs F = F[:len-1]): a surviving entry drops out of the list — the owner's termination never releases it")
 			case dropLast && (swapOther || shift):
-				r.OK(rule, key, fn, a.P.Pos(in.Pos()), inst, "the last element is cut after a swap with it / a shift of the tail")
+				// the new length is the old one minus one: len(F)-1, or (for a shifted tail) the
+				// index the shift started at plus the number of elements copy reported
+				okLen := false
+				if b, ok := sl.High.(*ssa.BinOp); ok {
+					if c, isC := constInt(b.Y); isC && c == 1 && b.Op == token.SUB {
+						if lc, ok := b.X.(*ssa.Call); ok {
+							if bi, ok := lc.Common().Value.(*ssa.Builtin); ok && bi.Name() == "len" && sameField(lc.Common().Args[0]) {
+								okLen = true
+							}
+						}
+					}
+					if b.Op == token.ADD {
+						isCopy := func(v ssa.Value) bool {
+							c, ok := v.(*ssa.Call)
+							if !ok {
+								return false
+							}
+							bi, ok := c.Common().Value.(*ssa.Builtin)
+							return ok && bi.Name() == "copy"
+						}
+						if isCopy(b.X) || isCopy(b.Y) {
+							okLen = true
+						}
+					}
+				}
+				if okLen {
+					r.OK(rule, key, fn, a.P.Pos(in.Pos()), inst, "the last element is cut (new length = old length - 1) after a swap with it / a shift of the tail")
+				} else {
+					r.Bad(rule, key, fn, a.P.Pos(in.Pos()), inst, "after the swap/shift the list is cut to "+sl.High.String()+", which is not its length minus one (copy returns the number of elements MOVED, not the new length): removing any element but the first also drops entries from the end — they stay registered and the owner's termination never releases them")
+				}
 			default:
 				// a plain truncation (pop) — not a removal by index
 			}
